@@ -84,6 +84,7 @@ func initProperties() {
 				use("NEXTGUARD", "one element read per HasNext", thriftGeneric),
 				use("STRUCTNIL", "a field step on a non-struct descriptor is an error, not a nil dereference", thriftGeneric),
 				use("INDEXLOWER", "a negative element index is rejected", thriftGeneric),
+				use("UNSIGNEDWIDEN", "i16/i32 are not read without sign extension", anyOf(thriftGeneric, thriftPkg)),
 				use("NEXTERR", "no node is cut from the span of a failed iterator step", thriftGeneric),
 				use("KTETROLE", "key/element types not mixed up", thriftGeneric),
 				use("CLAUSEWIDTH", "fixed-width clauses use the label's width", anyOf(thriftGeneric, thriftPkg)),
@@ -125,6 +126,7 @@ func initProperties() {
 				use("LOOPPROGRESS", "loops consume", inPkgs("conv/t2j")),
 				use("COUNTCMP", "element loops stop at the header count", inPkgs("conv/t2j")),
 				use("NONFINITE", "NaN/Inf never reach the float formatter (which writes nothing for them)", inPkgs("conv/t2j", "thrift/annotation")),
+				use("COUNTFACTOR", "unknown fields are skipped by count × width", thriftPkg),
 				use("NILLOOKUP", "lookups checked", inPkgs("conv/t2j")),
 				use("NATIVEQUOTE", "string escaper retry contract", nil),
 				use("POOLESCAPE", "result copied out of the pooled buffer", inPkgs("conv/t2j")),
@@ -162,6 +164,7 @@ func initProperties() {
 				use("SIZEPATCH", "a skipped child corrects the container count", thriftGeneric),
 				use("INDEXUPPER", "the by-id fast path is bounded by the loaded children", thriftGeneric),
 				use("DIVZERO", "hash-slot arithmetic survives an empty container", thriftGeneric),
+				use("COUNTFACTOR", "children that are skipped are skipped by count × width", thriftPkg),
 				use("KTETROLE", "key/element types not mixed up", thriftGeneric),
 				use("DROPERR", "errors propagate", funcHas("thrift/generic.PathNode")),
 			)},
@@ -193,6 +196,9 @@ func initProperties() {
 				use("WIREEXH", "group / invalid wire types are an error, not a silent no-op", nil),
 				use("NEXTERR", "no node is cut from the span of a failed iterator step", nil),
 				use("PACKEDKIND", "packed payloads are walked by the element kind", nil),
+				use("COUNTFACTOR", "count × width: every term of a skipped byte count carries the count", nil),
+				use("SLICEHIGH", "slices that cut a trailer are guarded by their own bound", nil),
+				use("PREFIXBOUND", "a decoded length is compared with the bytes after its prefix", nil),
 				use("NATIVEQUOTE", "string escaper retry contract", nil),
 				use("NATIVERET", "native status / buffer window", nil),
 			)},
@@ -222,6 +228,7 @@ func initProperties() {
 				use("MSGNARROW", "repeated/map walkers cannot leave the embedded message", protoBinary),
 				use("ELEMTAG", "unpacked list elements carry the element's wire type", protoBinary),
 				use("BOOLNONZERO", "a bool is true for every non-zero varint", nil),
+				use("PREFIXBOUND", "a decoded length is compared with the bytes after its prefix", nil),
 				use("WIREEXH", "group / invalid wire types are an error, not a silent no-op", nil),
 				use("NEXTERR", "no node is cut from the span of a failed iterator step", nil),
 				use("PACKEDKIND", "packed payloads are walked by the element kind", nil),
@@ -272,6 +279,7 @@ func initProperties() {
 				use("POOLFIELD", "the protocol object behind the returned bytes is not recycled", inPkgs("conv/j2p")),
 				use("SENTINELPOS", "the `no open length` sentinel never reaches FinishSpeculativeLength", inPkgs("conv/j2p")),
 				use("NILABLEFIELD", "a JSON scalar without a pending descriptor is an error, not a nil dereference", inPkgs("conv/j2p")),
+				use("SKIPRESET", "a skipped value does not swallow the member that follows it", nil),
 				use("POOLRESET", "pooled visitor state fully reset", inPkgs("conv/j2p")),
 			)},
 		{ID: "C10", Title: "Protobuf edits and DOM marshalling keep the message well-formed and exact",
@@ -353,6 +361,8 @@ func initProperties() {
 				use("LITPAIR", "name and alias are set together", inPkgs("thrift")),
 				use("PARSEPURE", "a parse leaves nothing behind for the next parse", nil),
 				use("DIVZERO", "name-index hash arithmetic never divides by zero", inPkgs("internal/caching", "internal/util")),
+				use("SERVICEONLY", "…ServiceOnly modes expose one service's methods", inPkgs("thrift")),
+				use("TARGETAFFINITY", "each type is parsed for the target it belongs to", nil),
 			)},
 		{ID: "C15", Title: "Protobuf descriptors mirror the schema",
 			Decides: "the compiling cache is keyed injectively (CACHEKEY: message types sharing a simple name get distinct descriptors), kind/wire/packedness tables match the spec (KINDTABLE), name maps are built (BUILDPAIR).",
@@ -367,6 +377,7 @@ func initProperties() {
 				use("FIELDNEVERSET", "no descriptor accessor returns a never-assigned field", inPkgs("proto")),
 				use("LITPAIR", "name and JSON name are set together", inPkgs("proto")),
 				use("PARSEPURE", "a parse leaves nothing behind for the next parse", nil),
+				use("SERVICEONLY", "…ServiceOnly modes expose one service's methods", inPkgs("proto")),
 			)},
 		{ID: "C16", Title: "Requiredness, defaults and unknown-field options behave as documented", QuickP: true,
 			Decides: "each write/disallow option reaches its own flag bit with the documented polarity (FLAGSYNC), options reach the matching parameter of HandleRequires/CheckRequires/EncodeText/ReadAnyWithDesc (ARGSWAP), an unknown member is an error exactly when disallowed and is otherwise skipped (NEGPOLARITY, UNKNOWNSKIP), unset fields are written under the same key as present ones (KEYSRC), the descriptor's requires bitmap is only copied, never written (DESCIMMUT).",
@@ -393,6 +404,7 @@ func initProperties() {
 				use("DEADSTORE", "no option source is overwritten before it is read", nil),
 				use("LISTORDER", "the listed order of the sources survives annotation mapping", nil),
 				use("MEDIATYPE", "the body is read whatever parameters the Content-Type carries", nil),
+				use("FORMSOURCE", "api.body / api.form read the body, not the query string", nil),
 				use("FIRSTWINS", "first source wins", nil),
 				use("FLAGSYNC", "HTTPConv enables mapping", nil),
 				use("ARGSWAP", "options in order", inPkgs("conv/j2t", "conv/t2j", "thrift/annotation")),
@@ -425,6 +437,10 @@ func initProperties() {
 				use("CLAUSEWIDTH", "fixed-width clauses use the label's width", thriftPkg),
 				use("CURSORREL", "the cursor only moves relatively", thriftPkg),
 				use("GOKINDAGREE", "scalar writer and container element classifier accept the same Go types", nil),
+				use("COUNTFACTOR", "count × width: every term of a skipped byte count carries the count", thriftPkg),
+				use("UNSIGNEDWIDEN", "i16/i32 are not read without sign extension", thriftPkg),
+				use("SLICEHIGH", "the envelope body is cut only after its own bound was checked", thriftPkg),
+				use("MSGMASK", "message type / version masks of the envelope", nil),
 				use("HDRFIRST", "header first", thriftPkg),
 				use("STRUCTPAIR", "STOP written", thriftPkg),
 				use("CASTUSED", "cast value written", thriftPkg),
